@@ -385,6 +385,46 @@ def safe_execute(check: Check, scenario: dict, timeout: float) -> dict:
     return out
 
 
+def run_isolated(fn, *args):
+    """Run fn(*args) in a forked child of this worker and return its result.  Every run then starts from the module
+    state the batch had when the pool was forked - state a run (or a mutated library: module-level caches, class
+    attributes) leaves behind cannot leak into the next run on the same worker, so one seed stays one repeatable
+    execution whatever ran before it.  A child that dies (segfault in a C extension) is reported for that run only."""
+    import pickle
+    r, w = os.pipe()
+    pid = os.fork()
+    if pid == 0:
+        code = 0
+        try:
+            os.close(r)
+            try:
+                data = pickle.dumps(fn(*args))
+            except BaseException:  # noqa: BLE001
+                data = pickle.dumps({"__isolated_error__": traceback.format_exc(limit=10)})
+            with os.fdopen(w, "wb") as f:
+                f.write(data)
+        except BaseException:  # noqa: BLE001
+            code = 3
+        finally:
+            os._exit(code)
+    os.close(w)
+    with os.fdopen(r, "rb") as f:
+        data = f.read()
+    _, status = os.waitpid(pid, 0)
+    if not data:
+        return {"__isolated_error__": f"isolated run died without a result (wait status {status})"}
+    return pickle.loads(data)
+
+
+def _one_run(check, tier, s, timeout):
+    rng = random.Random(s)
+    try:
+        scenario = check.generate(rng, tier)
+    except Exception:  # noqa: BLE001
+        return None, {"violation": None, "harness_error": "generate: " + traceback.format_exc(limit=8)}
+    return scenario, safe_execute(check, scenario, timeout)
+
+
 # worker-side globals (set before fork)
 _CHECK: Check | None = None
 
@@ -395,14 +435,19 @@ def _worker_chunk(args):
     agg = {"runs": 0, "events": 0, "faults": Counter(), "probes": Counter(), "sigs": set(), "inter": set(),
            "violations": [], "harness_errors": [], "samples": [], "fps": [], "fp_h": hashlib.sha256()}
     bud = check.budget(tier)
+    isolate = bud.get("isolate", True) and not os.environ.get("VERIF_NO_ISOLATE")
     for s in seeds:
-        rng = random.Random(s)
-        try:
-            scenario = check.generate(rng, tier)
-        except Exception:  # noqa: BLE001
-            agg["harness_errors"].append({"seed": s, "error": "generate: " + traceback.format_exc(limit=8)})
+        if isolate:
+            res = run_isolated(_one_run, check, tier, s, bud.get("run_timeout", 120))
+            if isinstance(res, dict) and "__isolated_error__" in res:
+                agg["harness_errors"].append({"seed": s, "error": res["__isolated_error__"]})
+                continue
+            scenario, out = res
+        else:
+            scenario, out = _one_run(check, tier, s, bud.get("run_timeout", 120))
+        if scenario is None:
+            agg["harness_errors"].append({"seed": s, "error": out["harness_error"]})
             continue
-        out = safe_execute(check, scenario, bud.get("run_timeout", 120))
         agg["runs"] += 1
         agg["events"] += out.get("events", 0)
         agg["faults"].update(out.get("faults", {}))
